@@ -123,6 +123,13 @@ func validate(n *model.Node, v jv.V, path string, out *[]Violation, depth int) {
 			return
 		}
 		x := jv.Rat(v.N)
+		if !jv.IsIntLiteral(v.N) {
+			// R2: a non-integer literal denotes the float64 it decodes to, exactly as the
+			// schema's own numbers do (both are read through float64); comparing the
+			// decimal text of one side with the binary value of the other would invent
+			// differences of half an ulp
+			x = ratOf(jv.Float64(v.N))
+		}
 		if n.Kind == model.KInteger && !jv.IsIntLiteral(v.N) {
 			if x.IsInt() {
 				add("ambiguous-int")
